@@ -50,4 +50,9 @@ PROPS = {
         "level": "exploration", "quick_s": 35, "thorough_s": 900, "thorough_seeds": 4,
         "rule": "processes with 1..3 start events (separate ends / exclusive merge / parallel join of the start branches), started by StartAll, by sequential StartWith or by concurrent StartWith goroutines, sometimes only a subset; 1..3 WaitUntilComplete clients, each optionally delayed, with a deadline that expires (then waiting again) and with repeated calls; answers optionally delayed in simulated time so that deadlines expire mid-flight; oracle: token game + per-call return/outcome stamps + position of CeaseFlowTrace; distinct = schedule hash; non-trivial = >1 start event or >1 waiter and a context switch",
     },
+    "C07": {
+        "level": "exploration", "quick_s": 40, "thorough_s": 900, "thorough_seeds": 4,
+        "rule": "C01-style programs (all gateway kinds, loops, sub-processes, conditional tasks) with some tasks never answered; fault = context cancellation when the k-th trace has been observed (k drawn in 1..90, or only after the instance came to rest); after the cancel the simulator runs to quiescence and the exact live-goroutine table, Tracer().Done(), subscriber channel closure, waiter returns and late TaskTraces are checked; distinct = schedule hash; non-trivial = cancel fired and a context switch",
+        "oracle": "exact live-goroutine table of the simulator + tracer/subscriber/waiter shutdown observations",
+    },
 }
